@@ -1,5 +1,203 @@
-"""KX engine (Kani) - filled in later."""
+"""KX engine: Kani 0.68 on a scratch copy of the real crates with harness modules injected.
+
+The scratch copy is created under $VERIF_SCRATCH (default /var/tmp), outside /repo and /verif, and
+removed with its build output when the run ends.  Nothing is written to /repo.
+
+Injection (all under cfg(kani), which only `cargo kani` sets):
+  * kx/harness/<name>.rs is appended verbatim to the source file named on its first line
+    (`// @append-to: stun-types/src/message.rs`); harness modules can therefore name private items.
+  * [patch.crates-io] tracing / tracing-attributes -> kx/tracing-stub (no-op macros).  Required: any
+    reachable tracing event makes kani-compiler 0.68 crash.  This drops exactly what rule R1 drops.
+"""
+import json
+import os
+import re
+import shutil
+import subprocess
+import tempfile
+import time
+
+ROOT = os.path.dirname(os.path.dirname(os.path.abspath(__file__)))
+REPO = os.environ.get('VERIF_REPO', '/repo')
+HARNESS_DIR = os.path.join(ROOT, 'kx', 'harness')
 
 
-def run_harnesses(hs, tier='quick'):
-    return {'report': [], 'cmds': [], 'obligations': 0, 'discharged': 0, 'violations': [], 'undecided': [], 'samples': []}
+def load_registry():
+    return json.load(open(os.path.join(ROOT, 'kx', 'harnesses.json')))
+
+
+def make_scratch():
+    base = os.environ.get('VERIF_SCRATCH', '/var/tmp')
+    os.makedirs(base, exist_ok=True)
+    d = tempfile.mkdtemp(prefix='verif-kx-', dir=base)
+    for name in ('Cargo.toml', 'Cargo.lock', 'stun-types', 'stun-proto', 'fuzz'):
+        src = os.path.join(REPO, name)
+        dst = os.path.join(d, name)
+        if os.path.isdir(src):
+            shutil.copytree(src, dst, ignore=shutil.ignore_patterns('target', '.git'))
+        elif os.path.exists(src):
+            shutil.copy(src, dst)
+    # patch tracing
+    with open(os.path.join(d, 'Cargo.toml'), 'a') as f:
+        f.write('\n[patch.crates-io]\ntracing = { path = "%s/kx/tracing-stub/tracing" }\ntracing-attributes = { path = "%s/kx/tracing-stub/tracing-attributes" }\n' % (ROOT, ROOT))
+    os.makedirs(os.path.join(d, '.cargo'), exist_ok=True)
+    open(os.path.join(d, '.cargo', 'config.toml'), 'w').write('[net]\noffline = true\n')
+    # the workspace member `fuzz` needs libfuzzer; drop it from the members list of the scratch copy
+    ct = open(os.path.join(d, 'Cargo.toml')).read()
+    ct = ct.replace('members = ["stun-types", "stun-proto", "fuzz"]', 'members = ["stun-types", "stun-proto"]')
+    open(os.path.join(d, 'Cargo.toml'), 'w').write(ct)
+    shutil.rmtree(os.path.join(d, 'fuzz'), ignore_errors=True)
+    return d
+
+
+def inject(scratch, files):
+    """append harness files; returns list of (harness file, target) ; raises on lost anchor"""
+    done = []
+    for hf in files:
+        p = os.path.join(HARNESS_DIR, hf)
+        txt = open(p).read()
+        m = re.match(r'//\s*@append-to:\s*(\S+)', txt)
+        if not m:
+            raise RuntimeError('harness file %s lacks @append-to' % hf)
+        tgt = os.path.join(scratch, m.group(1))
+        if not os.path.exists(tgt):
+            raise RuntimeError('lost anchor: %s (target of %s)' % (m.group(1), hf))
+        with open(tgt, 'a') as f:
+            f.write('\n' + txt)
+        done.append((hf, m.group(1)))
+    return done
+
+
+def run_harnesses(names, tier='quick'):
+    """names: list of harness names registered in kx/harnesses.json"""
+    reg = load_registry()
+    hs = []
+    for n in names:
+        if n not in reg:
+            raise RuntimeError('unregistered harness %s' % n)
+        h = dict(reg[n])
+        h['name'] = n
+        if h.get('tier', 'quick') == 'thorough' and tier != 'thorough':
+            continue
+        hs.append(h)
+    out = {'report': [], 'cmds': [], 'obligations': 0, 'discharged': 0, 'violations': [], 'undecided': [], 'samples': []}
+    if not hs:
+        return out
+    t0 = time.time()
+    scratch = make_scratch()
+    try:
+        # every harness file is injected (they share helpers in attribute_mod.rs); a harness file that no longer
+        # compiles against the current tree makes the whole KX run undecided, never an alarm
+        files = sorted(f for f in os.listdir(HARNESS_DIR) if f.endswith('.rs'))
+        # all harness files appended to the same targets must be injected together (they share helper code)
+        try:
+            inject(scratch, files)
+        except RuntimeError as e:
+            out['undecided'].append('kx: %s' % e)
+            return out
+        by_pkg = {}
+        for h in hs:
+            by_pkg.setdefault(h['package'], []).append(h)
+        for pkg, lst in by_pkg.items():
+            hto = max(h.get('timeout_s', 300) for h in lst)
+            cmd = ['cargo', 'kani', '-p', pkg, '-Z', 'function-contracts', '-Z', 'stubbing', '-Z', 'unstable-options', '--harness-timeout', '%ds' % hto, '--output-format', 'terse', '-j', '12']
+            for h in lst:
+                cmd += ['--harness', h['name']]
+            env = dict(os.environ)
+            env['CARGO_NET_OFFLINE'] = 'true'
+            env['CARGO_TARGET_DIR'] = os.path.join(scratch, 'target')
+            tmo = hto * 2 + 400
+            t1 = time.time()
+            try:
+                p = subprocess.run(cmd, cwd=scratch, env=env, stdout=subprocess.PIPE, stderr=subprocess.STDOUT, text=True, timeout=tmo)
+                log = p.stdout
+                rc = p.returncode
+            except subprocess.TimeoutExpired as e:
+                log = (e.stdout or '') if isinstance(e.stdout, str) else (e.stdout or b'').decode('utf8', 'replace')
+                rc = -9
+                subprocess.run(['pkill', '-f', 'cbmc'], check=False)
+            dt = time.time() - t1
+            out['cmds'].append(' '.join(cmd).replace(scratch, '<scratch copy of /repo>'))
+            os.makedirs(os.path.join(ROOT, 'build', 'kx'), exist_ok=True)
+            open(os.path.join(ROOT, 'build', 'kx', 'last-%s.log' % pkg), 'w').write(log)
+            res = parse_kani_log(log)
+            compile_failed = ('error: could not compile' in log or 'error[E' in log) and not res
+            for h in lst:
+                r = res.get(h['name'])
+                entry = {'harness': h['name'], 'kind': h.get('kind', 'complete'), 'bound': h.get('bound'), 'claims': h.get('claims'),
+                         'package': pkg, 'result': None, 'checks': None, 'time_s': None}
+                if compile_failed or r is None:
+                    entry['result'] = 'undecided'
+                    why = 'kani build failed' if compile_failed else ('timeout' if rc == -9 else 'no result for harness')
+                    tail = '\n'.join(l for l in log.split('\n') if l.startswith('error'))[:600]
+                    msg = 'kx: %s %s' % (why, tail) if compile_failed else 'kx/%s: %s' % (h['name'], why)
+                    if msg not in out['undecided']:
+                        out['undecided'].append(msg)
+                else:
+                    entry['result'] = r['status']
+                    entry['time_s'] = r.get('time_s')
+                    entry['failed_checks'] = r.get('failed', [])[:8]
+                    out['obligations'] += 1
+                    if r['status'] == 'SUCCESSFUL':
+                        out['discharged'] += 1
+                    elif r['status'] == 'FAILED':
+                        desc = '; '.join(r.get('failed', [])[:4])
+                        out['violations'].append({'engine': 'kx', 'key': 'kx:%s' % h['name'], 'what': 'Kani harness %s (%s) failed: %s' % (h['name'], h.get('claims', ''), desc),
+                                                  'obligation': 'kx::%s' % h['name'], 'detail': r.get('detail', '')[:3000]})
+                    else:
+                        out['undecided'].append('kx/%s: %s' % (h['name'], r['status']))
+                out['report'].append(entry)
+            out['samples'].append({'engine': 'kx', 'harnesses': [h['name'] for h in lst][:8], 'wall_s': round(dt, 1)})
+    finally:
+        shutil.rmtree(scratch, ignore_errors=True)
+    out['wall_s'] = round(time.time() - t0, 1)
+    return out
+
+
+def parse_kani_log(log):
+    """returns {harness: {status, failed[], time_s}}; handles sequential and `-j` (Thread N:) output"""
+    res = {}
+    thread_h = {}
+    timed_out = set()
+    cur = None
+    buf = []
+    for ln in log.split('\n'):
+        m = re.match(r'Thread (\d+): Checking harness (\S+?)\.\.\.', ln)
+        if m:
+            h = m.group(2).split('::')[-1]
+            thread_h[m.group(1)] = h
+            res.setdefault(h, {'status': 'UNKNOWN', 'failed': [], 'detail': ''})
+            continue
+        m = re.match(r'Thread (\d+):\s*$', ln)
+        if m:
+            cur = thread_h.get(m.group(1))
+            buf = []
+            continue
+        m = re.match(r'Checking harness (\S+?)\.\.\.', ln)
+        if m:
+            cur = m.group(1).split('::')[-1]
+            res[cur] = {'status': 'UNKNOWN', 'failed': [], 'detail': ''}
+            buf = []
+            continue
+        if cur is None:
+            continue
+        buf.append(ln)
+        m = re.match(r'Failed Checks: (.*)', ln)
+        if m:
+            res[cur]['failed'].append(m.group(1))
+        m = re.match(r'VERIFICATION:- (\w+)', ln)
+        if m:
+            res[cur]['status'] = m.group(1)
+            res[cur]['detail'] = '\n'.join(buf[-60:])
+        if 'CBMC timed out' in ln or 'out of memory' in ln.lower():
+            res[cur]['status'] = 'TIMEOUT'
+            timed_out.add(cur)
+        m = re.match(r'Verification Time: ([0-9.]+)s', ln)
+        if m:
+            res[cur]['time_s'] = float(m.group(1))
+    for m in re.finditer(r'Verification failed for - (\S+)', log):
+        n = m.group(1).split('::')[-1]
+        res.setdefault(n, {'status': 'FAILED', 'failed': [], 'detail': ''})
+        if res[n]['status'] == 'UNKNOWN' and n not in timed_out:
+            res[n]['status'] = 'FAILED'
+    return res
